@@ -170,7 +170,7 @@ class Ctx:
             "wall_s": round(time.time() - self.t0, 1), "violations": len(self.violations),
         }
         # evidence describes /repo; a run against a scratch tree (VERIF_REPO) keeps its record with its own build cache
-        edir = os.path.join(VERIF, "evidence") if build.REPO == "/repo" else os.path.join(build.BUILD, "evidence")
+        edir = os.path.join(VERIF, "evidence" if self.pid.startswith("C") else "evidence-extra") if build.REPO == "/repo" else os.path.join(build.BUILD, "evidence")
         os.makedirs(edir, exist_ok=True)
         p = os.path.join(edir, self.pid + ".json")
         with open(p + ".tmp", "w") as fh:
